@@ -54,6 +54,22 @@ THEOREMS = [
     "Verif.C07.F20b_witness",
     "Verif.C07.kymo_times_spec",
     "Verif.C07.kymo_times_errors",
+    "Verif.C07.getitem_image_refines",
+    "Verif.C07.image_shape",
+    "Verif.C07.index_image_refines",
+    "Verif.C07.fresh_paged",
+    "Verif.C07.ranges_slice_refines",
+    "Verif.C07.ranges_index_refines",
+    "Verif.C07.crop_preserves_ranges",
+    "Verif.C07.start_stop_refine",
+    "Verif.C07.ranges_sorted",
+    "Verif.C07.slice_time_refines",
+    "Verif.C07.time_bound_cases",
+    "Verif.C07.crop_none_id",
+    "Verif.C07.getitem_tuple_cases",
+    "Verif.C07.interpret_crop_cases",
+    "Verif.C07.retether_horizontal_length",
+    "Verif.C07.retether_maps_content",
 ]
 RULE = (
     "corpus (F2 inputs) + exhaustive small scope on real TIFF stacks of n<=6 frames of 4x5 pixels: every slice with "
